@@ -18,6 +18,7 @@ CONSTANTS
   MaxForce = 0
   MaxLag = 2
   MaxProbes = 1
+  MaxReorg = 0
   ExportOn = TRUE
   SampleMod = 60
 INIT Init
